@@ -113,6 +113,14 @@ BUILT = {
         'formulas with repeats parse to summed counts. Bounded (labelled): full to_string/from_string round trips over the whole alphabet, '
         'more delimiters and whitespace, random formulas, brute-force balance comparison.',
    note=BASE_NOTE + '; structured-string domain re-implements str.split/strip and the regex ^\\d+\\.?\\d* on its pieces; np.isclose and %.Nf rounding axiomatised'),
+ 'C05': dict(level='other', sec='4/C05',
+   text='Deductive (structured strings; names and element symbols are unknown words, counts / temperatures / coefficients symbolic numbers in '
+        'printed form): records 2-4 are 80 columns + newline with the record number in column 80, are classified as their record (never as a '
+        'temperature header) for every sign pattern, and every 15-column field reads back to 9 significant digits; record 1 layout (name first, '
+        'phase in column 45) and read-back of name, phase, composition (1-4 elements, 1-2 letter symbols, 1-3 digit counts) and temperatures '
+        'to 0.05 K per shape; whole files of 1-2 species written by write_thermdat read back to the same species in order for names that may '
+        'contain THERMO / END, with and without a comment block, in list / tuple / dict form. Bounded (labelled): files of 1-30 random species.',
+   note=BASE_NOTE + "; number formatting/parsing axiomatised ('{: 2.8E}', '%.1f', '%d', float, int); whole-file contracts explore non-negative coefficients (all sign patterns are covered per record)"),
 }
 REASON_PENDING = 'check not built yet (build phase in progress; see DESIGN.md section 10)'
 checks = []
